@@ -338,6 +338,6 @@ def _conn_cases(draw):
 def checks(tier):
     # one check per operator form so that every form gets the same budget (a single sampled_from over the
     # table was measured to give some forms 2 cases and others 130)
-    out = [Check("op." + name, _run_ops, strategy=_ops_cases(name), examples={"quick": 48, "thorough": 1600}, shards={"quick": 8, "thorough": 16}) for name in sorted(OPS)]
+    out = [Check("op." + name, _run_ops, strategy=_ops_cases(name), examples={"quick": 48, "thorough": 3200}, shards={"quick": 8, "thorough": 16}) for name in sorted(OPS)]
     out.append(Check("connectable", _run_conn, strategy=_conn_cases(), examples={"quick": 1600, "thorough": 16 * 6000}, shards={"quick": 8, "thorough": 16}))
     return out
